@@ -139,6 +139,31 @@ func (c *Cfg) genName(t *rapid.T, n *namer, label string, styles []string) strin
 			// leading / trailing / doubled underscores (were a crash in -gen go; fixed)
 			s = rapid.SampledFrom([]string{"_" + s, s + "_", w1 + "__" + w2}).Draw(t, label+".us")
 		}
+		if rapid.IntRange(0, 19).Draw(t, label+".affix?") == 0 {
+			// names the Go generator mangles: it appends "_" to identifiers that start with New or
+			// end in Result / Args (they would clash with generated constructors and structs)
+			snake := strings.Contains(s, "_")
+			switch rapid.IntRange(0, 2).Draw(t, label+".affix") {
+			case 0:
+				if snake || s == strings.ToLower(s) {
+					s = "new_" + s
+				} else {
+					s = "New" + title(s)
+				}
+			case 1:
+				if snake || s == strings.ToLower(s) {
+					s += "_result"
+				} else {
+					s += "Result"
+				}
+			default:
+				if snake || s == strings.ToLower(s) {
+					s += "_args"
+				} else {
+					s += "Args"
+				}
+			}
+		}
 		if n.take(s) {
 			return s
 		}
